@@ -567,6 +567,18 @@ def _const_param(ctx, b, tr, op, label):
     return 'violation', label, 'no call sites found / non-constant argument'
 
 
+_SIZES = {}
+
+
+def _sizes(ctx):
+    k = id(ctx.facts)
+    if k not in _SIZES:
+        from ..sizes import Sizes
+        _SIZES.clear()
+        _SIZES[k] = Sizes(ctx.facts)
+    return _SIZES[k]
+
+
 def _overflow(ctx, oa, b, cfg, tr, bi, t):
     binop = t.get('binop')
     if binop == 'Sub':
@@ -576,6 +588,18 @@ def _overflow(ctx, oa, b, cfg, tr, bi, t):
         if sg:
             return 'discharged', 'subtraction-cannot-underflow', sg
     a, c = t['ops']
+    sz = _sizes(ctx)
+    try:
+        ia, ic = sz.interval(b, a), sz.interval(b, c)
+    except Exception:      # noqa: BLE001
+        ia = ic = None
+    from ..sizes import RANGES, _arith, _plain
+    rng = RANGES.get(a.get('ty'))
+    if _plain(ia) and _plain(ic) and rng is not None and binop in ('Add', 'Sub', 'Mul'):
+        res = _arith(binop, ia, ic)
+        if res is not None and rng[0] <= res[0] and res[1] <= rng[1]:
+            return 'discharged', 'size-arithmetic', 'operands in [%d, %d] and [%d, %d] (collection lengths bounded by isize::MAX / ' \
+                'element size, constants): the %s result fits %s' % (ia[0], ia[1], ic[0], ic[1], a.get('ty'), a.get('ty'))
     ao, co = tr.origin(a), tr.origin(c)
     sigk = 'Overflow:%s' % binop
     rhs_const1 = co['o'] == 'const' and const_value(co['c']) == 1
